@@ -425,59 +425,80 @@ func eventArmOn(f *ssa.Function, typ string, v ssa.Value) *arm {
 // next wait without re-reading goes through the default of a comparison chain
 // on the event's Name.
 func c17OnlyViaNameFilter(entry *ssa.BasicBlock, sel *ssa.Select, reread *ssa.Call) bool {
-	// blocks that compare ev.Name
-	isNameCmp := func(b *ssa.BasicBlock) bool {
-		if len(b.Instrs) == 0 {
-			return false
+	// The condition under which the arm goes back to the wait without re-reading (per iteration: over the
+	// back edges into the loop header that are reachable from the arm without passing the re-read) may only
+	// consist of comparisons of the event's Name (and the receive's ok flag), and must be false as soon as
+	// one of those comparisons holds: the skip is taken only for an event whose name matches none of the
+	// watched paths. Works for the switch form, an if-chain or a boolean expression.
+	hdr := sel.Block()
+	for h := hdr; h != nil; h = h.Idom() {
+		isHdr := false
+		for _, p := range h.Preds {
+			if h.Dominates(p) {
+				isHdr = true
+			}
 		}
-		iff, ok := b.Instrs[len(b.Instrs)-1].(*ssa.If)
-		if !ok {
-			return false
+		if isHdr {
+			hdr = h
+			break
 		}
-		bo, ok := iff.Cond.(*ssa.BinOp)
-		if !ok || bo.Op != token.EQL {
+	}
+	isNameCmp := func(v ssa.Value) bool {
+		bo, ok := v.(*ssa.BinOp)
+		if !ok || (bo.Op != token.EQL && bo.Op != token.NEQ) {
 			return false
 		}
 		return strings.HasSuffix(canon(bo.X), ".Name") || strings.HasSuffix(canon(bo.Y), ".Name")
 	}
-	// search paths from entry to the select avoiding reread/return, and require each to pass the false edge of a name comparison
-	type st struct {
-		b      *ssa.BasicBlock
-		passed bool
-	}
-	seen := map[st]bool{}
-	work := []st{{entry, false}}
-	for len(work) > 0 {
-		x := work[len(work)-1]
-		work = work[:len(work)-1]
-		if seen[x] {
+	n := 0
+	pb := &predBuilder{name: func(v ssa.Value) string {
+		if isNameCmp(v) {
+			n++
+			bo := v.(*ssa.BinOp)
+			k := "nameEq:" + canon(bo.X) + "|" + canon(bo.Y)
+			if bo.Op == token.NEQ {
+				return "" // handled through NOT of the EQL form below
+			}
+			return k
+		}
+		if ex, ok := v.(*ssa.Extract); ok && ex.Index > 0 {
+			if _, isSel := ex.Tuple.(*ssa.Select); isSel {
+				return "recvOK"
+			}
+		}
+		return ""
+	}}
+	avoid := map[*ssa.BasicBlock]bool{reread.Block(): true}
+	var skip formula = fConst{false}
+	for _, p := range hdr.Preds {
+		if !hdr.Dominates(p) {
 			continue
 		}
-		seen[x] = true
-		blocked := false
-		for _, in := range x.b.Instrs {
-			if in == ssa.Instruction(reread) || isReturn(in) {
-				blocked = true
-				break
-			}
-			if in == ssa.Instruction(sel) {
-				if !x.passed {
-					return false
-				}
-				blocked = true
-				break
-			}
-		}
-		if blocked {
+		if !(entry == p || entry.Dominates(p)) {
 			continue
 		}
-		for si, s := range x.b.Succs {
-			p := x.passed
-			if isNameCmp(x.b) && si == 1 {
-				p = true
-			}
-			work = append(work, st{s, p})
+		skip = mkOr(skip, mkAnd(pb.pathCondAvoid(entry, p, avoid), edgeFormula(pb, p, hdr)))
+	}
+	fb, fi := map[string]bool{}, map[string]bool{}
+	atomsOf(skip, fb, fi)
+	for a := range fb {
+		if !strings.HasPrefix(a, "nameEq:") && a != "recvOK" {
+			return false // the skip depends on something other than the event's name
 		}
 	}
-	return true
+	if len(fi) > 0 {
+		return false
+	}
+	_, counter := forAll(skip, nil, func(e env, fv bool) bool {
+		if !fv {
+			return true
+		}
+		for a, v := range e.B {
+			if strings.HasPrefix(a, "nameEq:") && v {
+				return false // skipped although the name matched a watched path
+			}
+		}
+		return true
+	})
+	return counter == ""
 }
